@@ -125,7 +125,7 @@ def predefined_script():
     global _PREDEF
     if _PREDEF is None:
         env = dict(os.environ, PYTHONPATH=VERIF + ':' + os.path.join(
-            os.environ.get('QUANTITY_REPO', '/repo'), 'src'),
+            (os.environ.get('QUANTITY_REPO') or '/repo'), 'src'),
             DECIMALFP_FORCE_PYTHON_IMPL='1', PYTHONHASHSEED='0')
         out = subprocess.run(
             [sys.executable, '-c',
